@@ -25,9 +25,12 @@ def fibre_len(path):
 
 
 names = ['ring3', 'star4', 'ring4', 'mesh4'] if a.tier == 'quick' else ['line3', 'ring3', 'star4', 'ring4', 'mesh4', 'full4']
-for name in names:
-    sites, links = TOPOLOGIES[name]
-    topo = mesh(sites, links, spans={l: LENS.get(l, LENS.get((l[1], l[0]), [80])) for l in links})
+# the same mesh with operator-placed in-line amplifiers, one of them behind a 200 km fibre (which auto-design splits)
+LENS_AMP = {**LENS, ('A', 'C'): [200, 30], ('C', 'A'): [200, 30]}
+for name in names + ['mesh4:in-line amplifiers given']:
+    sites, links = TOPOLOGIES[name.split(':')[0]]
+    lens = LENS_AMP if ':' in name else LENS
+    topo = mesh(sites, links, spans={l: lens.get(l, lens.get((l[1], l[0]), [80])) for l in links}, junction='edfa' if ':' in name else 'none')
     net, eqpt = design(topo)
     build_oms_list(net, eqpt)
     by_uid = {n.uid: n for n in net.nodes()}
